@@ -261,7 +261,11 @@ def match_packages(
         # with the all-arches candidates
         allarches_kw: list[str] = []
         if allarches and stable and filter_arch:
-            allarches_kw = sort_keywords(suggested_keywords(repo, pkg, stable=True))
+            # nobody wrote these, so an arch the repo doesn't know is left out
+            # rather than reported as a mistake in the request
+            allarches_kw = sort_keywords(
+                suggested_keywords(repo, pkg, stable=True) & valid_arches
+            )
 
         if only_new:
             keywords = [
